@@ -103,15 +103,15 @@ theorem processElement_safe (txt : Bytes) (c : Ctx) (e : EndKind) (r : Range) (h
     · refine rspec_bind _ _ _ _ (resolveNamespaces_safe c hb.pid_lt ha.nsOk) ?_
       rintro ⟨c1, nss⟩ ⟨hns1, hn1, hn2, hfr1⟩
       dsimp only at hns1 hn1 hn2 hfr1 ⊢
-      have hns1' : NsOk ({ c1 with nsStartIdx := c1.doc.ns.treeOrder.size } : Ctx).doc
+      have hns1' : NsOk ({ c1 with nsStartIdx := c1.doc.ns.treeOrder.size, xmlDeclared := false } : Ctx).doc
           c1.doc.ns.treeOrder.size :=
         ⟨hns1.ns, hns1.xml0, Nat.le_refl _, hns1.elem, hns1.attrNs⟩
-      refine rspec_bind _ _ _ _ (resolveAttributes_safe txt { c1 with nsStartIdx := c1.doc.ns.treeOrder.size }
+      refine rspec_bind _ _ _ _ (resolveAttributes_safe txt { c1 with nsStartIdx := c1.doc.ns.treeOrder.size, xmlDeclared := false }
         nss c1.doc.ns.treeOrder.size hns1' ⟨hn1, hn2⟩) ?_
       rintro ⟨c2, attrs⟩ ⟨hns2, ha1, ha2', hnodes2, hnsEq2, hfr2⟩
       dsimp only at hns2 ha1 ha2' hnodes2 hnsEq2 hfr2 ⊢
       have hc2 : c2 = { c with doc := c2.doc, curAttrs := c2.curAttrs,
-                                 nsStartIdx := c2.doc.ns.treeOrder.size } := by
+                                 nsStartIdx := c2.doc.ns.treeOrder.size, xmlDeclared := false } := by
         rw [hfr2, hfr1]
         simp only [hnsEq2]
       have hnodes : c2.doc.nodes = c.doc.nodes := by
@@ -201,7 +201,7 @@ theorem processAttribute_safe (T : Tables) (hT : TablesOK T) (txt : Bytes) (c : 
               · exact errPos_safe _ _ _ _
               · split
                 · exact rspec_weaken (processAttribute_push txt c2 ha2 _ _) (fun c' h => ⟨h.1, hk2.trans h.2⟩)
-                · exact rspec_ok _ _ ⟨ha2, hk2⟩
+                · exact rspec_ok _ _ ⟨⟨ha2.lim, ha2.nsOk, ha2.text, ha2.ents, ha2.depth⟩, hk2⟩
     · split
       · split
         · exact errPos_safe _ _ _ _
